@@ -192,7 +192,7 @@ func c12Check(c *Ctx, body []*PS, predicate bool, label string) {
 	got := 1
 	if err != nil {
 		got = 0
-		if !strings.HasPrefix(err.Error(), "GenError") {
+		if strings.HasPrefix(err.Error(), "ParseError") || strings.HasPrefix(err.Error(), "LexError") {
 			c.Violation("NOT-A-TYPE-ERROR", fmt.Sprintf("%q: expected a verdict of the type checker, got %s", src, firstLine(err.Error())), map[string]any{"kind": "compile", "src": src})
 			return
 		}
